@@ -303,6 +303,28 @@ def F15b():
     r = r or []
     return (exc is None and "DataReceived" in r and "ConnectionTerminated" in r and "StreamEnded" not in r), f"client saw {r}"
 
+def F2b():
+    """the application's response carries a header h2 refuses to send (here `te: gzip`): on HTTP/2 h2
+    refuses the head, stream_send swallows the ProtocolError: the application is told nothing and
+    the client gets no response head at all"""
+    raised = []
+
+    async def app(scope, receive, send):
+        try:
+            await send({"type": "http.response.start", "status": 200, "headers": [(b"te", b"gzip")]})
+            await send({"type": "http.response.body", "body": b"hello"})
+        except Exception as e:  # noqa
+            raised.append(type(e).__name__)
+
+    async def sc(h):
+        h.client.send_headers(1, GET, end_stream=True)
+        await h.flush()
+        await h.flush()
+        return [type(e).__name__ for e in h.events]
+    h, r, exc = run_scenario(app, sc)
+    r = r or []
+    return (exc is None and not raised and "ResponseReceived" not in r), f"application saw {raised or 'no error'}; client saw {r}"
+
 
 SCENARIOS = {k: v for k, v in globals().items() if k.startswith("F") and callable(v)}
 
